@@ -1933,8 +1933,12 @@ fn write_section_reversed<'data, A: Arch<Platform = Elf>>(
             "Section size is not a multiple of word size"
         );
 
-        let pointers: &mut [u64] = <[u64]>::mut_from_bytes(out).unwrap();
-        pointers.reverse();
+        // Reverse the order of the words. We do this bytewise, since the section might only be
+        // 4-byte aligned, in which case we can't view it as a slice of u64s.
+        out.reverse();
+        for word in out.chunks_exact_mut(WORD_SIZE) {
+            word.reverse();
+        }
     }
 
     // For reversed sections, we need to adjust relocation offsets.
